@@ -78,16 +78,11 @@ theorem blank3_val {a : Arpa} {nWords : Nat} {um : Rat} (ok : ArpaOK' a nWords u
 def Cls1 (a : Arpa) (p : Key) : Prop := 4 ≤ p.length → a.gram (p.take (p.length - 1)) ≠ none
 
 /-- the per-line step for the single-blank class -/
-theorem step1 (combine : Nat → Word → Nat) (a : Arpa) (nWords : Nat) (um : Rat) (ok : ArpaOK' a nWords um) (N : Nat) (caps : Nat → Nat)
+theorem step1' (combine : Nat → Word → Nat) (a : Arpa) (nWords : Nat) (um : Rat) (ok : ArpaOK' a nWords um) (N : Nat) (caps : Nat → Nat)
     (S : List Key) (s : St) (p : Key) (e : Entry) (inv : InvG combine a (initUni a nWords) N caps S s) (si : SInv a S)
-    (lc : LC combine a (initUni a nWords) N caps S p e) (cls' : Cls1 a p) :
+    (lc : LC combine a (initUni a nWords) N caps S p e) (cls : 3 ≤ p.length → p.take (p.length - 1) ∉ S → p.length = 3) :
     ∃ s', addLine combine false N s p e = .ok s' ∧ InvG combine a (initUni a nWords) N caps (addLineKeys S p) s' := by
   have hu := initUni_ok a nWords
-  have cls : 3 ≤ p.length → p.take (p.length - 1) ∉ S → p.length = 3 := by
-    intro h3 hns
-    apply Classical.byContradiction; intro hne
-    have h4 : 4 ≤ p.length := by omega
-    exact hns (lc.rs _ (cls' h4) (by rw [List.length_take]; omega) (by rw [List.length_take]; omega))
   by_cases hst : p.length < 3 ∨ p.take (p.length - 1) ∈ S
   · -- no blank
     have hmiss : missing S p (p.length - 1) = [] := missing_nil_of_mem S p _ (by
@@ -159,6 +154,16 @@ end KV.ProbingBuild
 
 namespace KV.ProbingBuild
 open KV.Arpa KV.Table KV.Score KV.ProbingLM
+
+theorem step1 (combine : Nat → Word → Nat) (a : Arpa) (nWords : Nat) (um : Rat) (ok : ArpaOK' a nWords um) (N : Nat) (caps : Nat → Nat)
+    (S : List Key) (s : St) (p : Key) (e : Entry) (inv : InvG combine a (initUni a nWords) N caps S s) (si : SInv a S)
+    (lc : LC combine a (initUni a nWords) N caps S p e) (cls' : Cls1 a p) :
+    ∃ s', addLine combine false N s p e = .ok s' ∧ InvG combine a (initUni a nWords) N caps (addLineKeys S p) s' := by
+  refine step1' combine a nWords um ok N caps S s p e inv si lc ?_
+  intro h3 hns
+  apply Classical.byContradiction; intro hne
+  have h4 : 4 ≤ p.length := by omega
+  exact hns (lc.rs _ (cls' h4) (by rw [List.length_take]; omega) (by rw [List.length_take]; omega))
 
 def foldKeys (S : List Key) (ls : List Line) : List Key := ls.foldl (fun S p => addLineKeys S p.1) S
 
